@@ -11,8 +11,10 @@ namespace DarkluaModel.Rules.MethodDef
 
 /-- `FunctionStatement::remove_method` -/
 def removeMethod : Stmt → Stmt
-  | .function name (some m) (.mk ps v vt r g a b) =>
-    .function (name ++ [m]) none (.mk (.mk "self" none :: ps) v vt r g a b)
+  | .function (root :: path) (some m) (.mk ps v vt r g a b) =>
+    -- (a `FunctionName` always has a root identifier: the empty name list is not representable in Rust
+    -- nor on the wire, and is left alone)
+    .function (root :: path ++ [m]) none (.mk (.mk "self" none :: ps) v vt r g a b)
   | s => s
 
 def processor : Processor Unit := { stmtNode := fun s u => (removeMethod s, u) }
@@ -24,17 +26,17 @@ def apply (b : Block) : Block := (Visitor.runDefault processor b ()).1
 open Sem
 
 theorem removeMethod_sound {N : NumOps} (call : CallFn N) (ρ : ExtOracle N) (k : Nat) (env : Env N)
-    (s : Stmt) (hname : ∀ name m body, s = .function name m body → name ≠ []) (σ : State N) :
+    (s : Stmt) (σ : State N) :
     execS call ρ k env (removeMethod s) σ = execS call ρ k env s σ := by
   cases s with
   | function name m body =>
     cases m with
-    | none => rfl
+    | none => cases name <;> rfl
     | some mm =>
       cases body with
       | mk ps v vt r g a b =>
         cases name with
-        | nil => exact absurd rfl (hname [] (some mm) _ rfl)
+        | nil => rfl
         | cons root path =>
           cases path with
           | nil => simp [removeMethod, execS]
